@@ -150,6 +150,17 @@ CLAIMED = {
              "private state unchanged.",
         design="§4 C20", technique="Coq codec round-trip proofs + Coq parsers run on the implementation's output",
         note="the lexer (comment/blank handling, int/float/keyword classification) and float(str(x)) == x are trusted harness code; known findings off-face-count-token, polytri thresholds (STL of small Polyhedron)."),
+    "C17": dict(
+        text="Translator tie: plane tables, plane types, fixed middle distance, domains and thresholds of the truncation families are regenerated from the "
+             "source (Gen/Planes.v) each run. Model: exact vertex enumeration of the half-space intersection over the field Q(sqrt5) (own Ops instance). "
+             "Theorems: every enumerated point satisfies every constraint (generic) and lies on three planes (Cramer); corner solids of 323+/423 by "
+             "vm_compute on the generated tables (6,4,4,8,12 / 12,8,6,14 vertices); domains; unit-area n-gon and unit-volume equal-edge prism algebra. "
+             "Correspondence: dyadic (a,c) grids incl. edges/corners + random points + out-of-domain values: the returned polyhedron's vertex set equals "
+             "the exact one (1e-6), ValueError only where exact vertices are closer than 1e-4; truncated-tetrahedron family; n-gons, prisms, antiprisms for "
+             "ALL n in 3..200 and (di)pyramids n=3..5: vertex counts, unit area/volume and centred (exact C04/C01 models), equal edges, first vertex on +x.",
+        design="§4 C17", technique="source-to-Coq translation of plane tables + exact model over Q(sqrt5) + Coq proof (generic soundness, Cramer, vm_compute corners) + correspondence",
+        note="completeness of the enumeration (every vertex of the intersection is found) holds by construction of vertices as triple intersections but is not stated as a theorem; "
+             "antiprism/pyramid closed forms validated numerically only."),
 }
 
 REASON_TODO = "check not built yet (work in progress this round)"
